@@ -1,12 +1,294 @@
 /-
-  Driver/OpsManif.lean — driver ops of the "Manif" unit (stub: serves nothing yet).
-  Interface: return `none` for requests this unit does not serve, `some reply` otherwise.
+  Driver/OpsManif.lean — driver ops of the Manifold unit (property C07): `man_*`.
+
+  The `grp` token is a TYPE descriptor
+      <GDesc>            a Lie group (SO3, SE2, T3 = Eigen::Vector3, B[SO3,T2] …)
+      R                  double / float
+      X                  Eigen::VectorX
+      V[t]               std::vector<t>
+      W[a,b,c]           std::variant<a,b,c>
+      S[t]               SubManifold<t>
+      A[a,b,c,d]         AnyManifold holding one of the four listed types
+  and the shape travels in the data (integers as exactly representable floating-point words):
+      group: rep coefficients;  R: 1 word;  X: n, entries;  V: n, elements;  W/A: index, value;
+      S: nfixed, fixed dims, m0, m.        Tangents: n, entries.
+  Replies: hex words, or `THROW <what>` when the modelled operation throws.
 -/
 import SmoothModel
+import SmoothModel.Manifold
 import Driver.Ops
+
+open Scalar Lin Manif
 
 namespace Drv
 
-def runManif (_op _grp _prec : String) (_args : Array String) : Option String := none
+inductive MT where
+  | grp (d : GDesc)
+  | scal
+  | vecx
+  | vector (t : MT)
+  | var3 (a b c : MT)
+  | sub (t : MT)
+  | any4 (a b c d : MT)
+  deriving Inhabited
+
+def Fam3 (A B C : Type) : Fin 3 → Type
+  | 0 => A | 1 => B | 2 => C
+def Fam4 (A B C D : Type) : Fin 4 → Type
+  | 0 => A | 1 => B | 2 => C | 3 => D
+
+def MT.carrier (α : Type) [Scalar α] : MT → Type
+  | .grp d => Vec α (GDesc.model (α := α) d).rep
+  | .scal => α
+  | .vecx => List α
+  | .vector t => List (t.carrier α)
+  | .var3 a b c => Σ i : Fin 3, Fam3 (a.carrier α) (b.carrier α) (c.carrier α) i
+  | .sub t => SubMan (t.carrier α)
+  | .any4 a b c d => Σ i : Fin 4, Fam4 (a.carrier α) (b.carrier α) (c.carrier α) (d.carrier α) i
+
+variable {α : Type} [Scalar α]
+
+def fam3Man {A B C : Type} (a : Man α A) (b : Man α B) (c : Man α C) : ∀ i, Man α (Fam3 A B C i)
+  | 0 => a | 1 => b | 2 => c
+def fam4Man {A B C D : Type} (a : Man α A) (b : Man α B) (c : Man α C) (d : Man α D) :
+    ∀ i, Man α (Fam4 A B C D i)
+  | 0 => a | 1 => b | 2 => c | 3 => d
+
+/-- marker for never-written entries of an uninitialised buffer (the harness prints the same) -/
+def nanOf (α : Type) [Scalar α] : α := (nat 0 : α) / (nat 0 : α)
+
+def MT.man : (t : MT) → Man α (t.carrier α)
+  | .grp d => Manif.ofLie (GDesc.model d)
+  | .scal => Manif.scalar
+  | .vecx => Manif.vecX
+  | .vector t => Manif.vector t.man (fun _ => nanOf α)
+  | .var3 a b c => Manif.variant (fam3Man a.man b.man c.man) 0
+  | .sub t => Manif.sub t.man
+  | .any4 a b c d => Manif.any (fam4Man a.man b.man c.man d.man)
+
+/-! #### codec -/
+
+def natOfScalar (x : α) : Nat :=
+  ((List.range 4096).find? (fun k => !(decide ((nat k : α) < x)))).getD 0
+
+def decodeMany {T : Type} (dec : Array α → Nat → Option (T × Nat)) :
+    Nat → Array α → Nat → Option (List T × Nat)
+  | 0, _, o => some ([], o)
+  | n+1, x, o =>
+    match dec x o with
+    | none => none
+    | some (v, o1) =>
+      match decodeMany dec n x o1 with
+      | none => none
+      | some (vs, o2) => some (v :: vs, o2)
+
+def decodeNat (x : Array α) (o : Nat) : Option (Nat × Nat) :=
+  if h : o < x.size then some (natOfScalar x[o], o + 1) else none
+
+def decodeList (x : Array α) (o : Nat) : Option (List α × Nat) :=
+  match decodeNat x o with
+  | none => none
+  | some (n, o1) =>
+    if o1 + n ≤ x.size then some ((List.range n).map (fun i => x.getD (o1 + i) (nat 0)), o1 + n) else none
+
+def decodeNats (x : Array α) (o : Nat) : Option (List Nat × Nat) :=
+  match decodeList x o with
+  | none => none
+  | some (l, o1) => some (l.map natOfScalar, o1)
+
+def MT.decode : (t : MT) → Array α → Nat → Option (t.carrier α × Nat)
+  | .grp d, x, o =>
+    let n := (GDesc.model (α := α) d).rep
+    if o + n ≤ x.size then some (memoV (ofArray n x o), o + n) else none
+  | .scal, x, o => if h : o < x.size then some (x[o], o + 1) else none
+  | .vecx, x, o => decodeList x o
+  | .vector t, x, o =>
+    match decodeNat x o with
+    | none => none
+    | some (n, o1) => decodeMany (MT.decode t) n x o1
+  | .var3 a b c, x, o =>
+    match decodeNat x o with
+    | some (0, o1) => (MT.decode a x o1).map (fun (v, o2) => (⟨0, v⟩, o2))
+    | some (1, o1) => (MT.decode b x o1).map (fun (v, o2) => (⟨1, v⟩, o2))
+    | some (2, o1) => (MT.decode c x o1).map (fun (v, o2) => (⟨2, v⟩, o2))
+    | _ => none
+  | .sub t, x, o =>
+    match decodeNats x o with
+    | none => none
+    | some (fixed, o1) =>
+      match MT.decode t x o1 with
+      | none => none
+      | some (m0, o2) =>
+        match MT.decode t x o2 with
+        | none => none
+        | some (m, o3) => some (⟨m0, m, fixed⟩, o3)
+  | .any4 a b c d, x, o =>
+    match decodeNat x o with
+    | some (0, o1) => (MT.decode a x o1).map (fun (v, o2) => (⟨0, v⟩, o2))
+    | some (1, o1) => (MT.decode b x o1).map (fun (v, o2) => (⟨1, v⟩, o2))
+    | some (2, o1) => (MT.decode c x o1).map (fun (v, o2) => (⟨2, v⟩, o2))
+    | some (3, o1) => (MT.decode d x o1).map (fun (v, o2) => (⟨3, v⟩, o2))
+    | _ => none
+
+def encodeList (l : List α) : Array α := #[(nat l.length : α)] ++ l.toArray
+
+def MT.encode : (t : MT) → t.carrier α → Array α
+  | .grp _, g => toArray g
+  | .scal, x => #[x]
+  | .vecx, v => encodeList v
+  | .vector t, ms => ms.foldl (fun acc m => acc ++ MT.encode t m) #[(nat ms.length : α)]
+  | .var3 a _ _, ⟨0, v⟩ => #[(nat 0 : α)] ++ MT.encode a v
+  | .var3 _ b _, ⟨1, v⟩ => #[(nat 1 : α)] ++ MT.encode b v
+  | .var3 _ _ c, ⟨2, v⟩ => #[(nat 2 : α)] ++ MT.encode c v
+  | .sub t, s =>
+    #[(nat s.fixed.length : α)] ++ (s.fixed.map (fun k => (nat k : α))).toArray
+      ++ MT.encode t s.m0 ++ MT.encode t s.m
+  | .any4 a _ _ _, ⟨0, v⟩ => #[(nat 0 : α)] ++ MT.encode a v
+  | .any4 _ b _ _, ⟨1, v⟩ => #[(nat 1 : α)] ++ MT.encode b v
+  | .any4 _ _ c _, ⟨2, v⟩ => #[(nat 2 : α)] ++ MT.encode c v
+  | .any4 _ _ _ d, ⟨3, v⟩ => #[(nat 3 : α)] ++ MT.encode d v
+
+/-! #### type descriptor parser -/
+
+namespace MT
+
+partial def parseAux (cs : List Char) : Option (MT × List Char) :=
+  let rec items (cs : List Char) (acc : List MT) : Option (List MT × List Char) :=
+    match parseAux cs with
+    | some (d, ',' :: r) => items r (d :: acc)
+    | some (d, ']' :: r) => some ((d :: acc).reverse, r)
+    | _ => none
+  match cs with
+  | 'V' :: '[' :: rest =>
+    match items rest [] with
+    | some ([t], r) => some (.vector t, r)
+    | _ => none
+  | 'W' :: '[' :: rest =>
+    match items rest [] with
+    | some ([a, b, c], r) => some (.var3 a b c, r)
+    | _ => none
+  | 'S' :: '[' :: rest =>
+    match items rest [] with
+    | some ([t], r) => some (.sub t, r)
+    | _ => none
+  | 'A' :: '[' :: rest =>
+    match items rest [] with
+    | some ([a, b, c, d], r) => some (.any4 a b c d, r)
+    | _ => none
+  | 'R' :: r => some (.scal, r)
+  | 'X' :: r => some (.vecx, r)
+  | _ =>
+    match GDesc.parseAux cs with
+    | some (d, r) => some (.grp d, r)
+    | none => none
+
+def parse (s : String) : Option MT :=
+  match parseAux s.toList with
+  | some (t, []) => some t
+  | _ => none
+
+end MT
+
+/-! #### ops -/
+
+def throwMsg (e : String) : String := "THROW " ++ e.replace " " "_"
+
+/-- result of an op: words or a thrown exception -/
+inductive Reply (α : Type) where
+  | words (w : Array α)
+  | thrown (msg : String)
+  | bad (msg : String)
+
+def ofExcept {T : Type} (r : Except String T) (k : T → Reply α) : Reply α :=
+  match r with
+  | .ok v => k v
+  | .error e => .thrown e
+
+@[specialize] def runManifOp (t : MT) (op : String) (x : Array α) : Reply α :=
+  let A : Man α (t.carrier α) := t.man
+  match op with
+  | "man_dof" =>
+    match t.decode x 0 with
+    | some (m, o) => if o = x.size then .words #[(nat (A.dof m) : α)] else .bad "arity"
+    | none => .bad "decode"
+  | "man_rplus" =>
+    match t.decode x 0 with
+    | some (m, o) =>
+      match decodeList x o with
+      | some (a, o1) => if o1 = x.size then .words (t.encode (A.rplus m a)) else .bad "arity"
+      | none => .bad "decode-tangent"
+    | none => .bad "decode"
+  | "man_rminus" =>
+    match t.decode x 0 with
+    | some (m1, o) =>
+      match t.decode x o with
+      | some (m2, o1) =>
+        if o1 = x.size then ofExcept (A.rminus m1 m2) (fun d => .words (encodeList d)) else .bad "arity"
+      | none => .bad "decode-2"
+    | none => .bad "decode"
+  | "man_cast" =>
+    match t.decode x 0 with
+    | some (m, o) => if o = x.size then ofExcept (A.cast m) (fun c => .words (t.encode c)) else .bad "arity"
+    | none => .bad "decode"
+  | "man_default" =>
+    match decodeNat x 0 with
+    | some (n, o) => if o = x.size then ofExcept (A.default n) (fun c => .words (t.encode c)) else .bad "arity"
+    | none => .bad "decode"
+  | "man_copy" =>
+    -- copy, then mutate the copy: reply = original afterwards ++ mutated copy
+    match t.decode x 0 with
+    | some (m, o) =>
+      match decodeList x o with
+      | some (a, o1) =>
+        if o1 = x.size then .words (t.encode m ++ t.encode (A.rplus m a)) else .bad "arity"
+      | none => .bad "decode-tangent"
+    | none => .bad "decode"
+  | _ => .bad ("unknown-op " ++ op)
+
+/-- ops that exist for `SubManifold` only -/
+@[specialize] def runSubOp (t : MT) (op : String) (x : Array α) : Reply α :=
+  match op with
+  | "man_subctor" =>
+    -- m0, m, fixed dims as given (any order)
+    match t.decode x 0 with
+    | some (m0, o) =>
+      match t.decode x o with
+      | some (m, o1) =>
+        match decodeNats x o1 with
+        | some (fixed, o2) =>
+          if o2 = x.size then .words ((MT.sub t).encode (SubMan.ctor m0 m fixed)) else .bad "arity"
+        | none => .bad "decode-fixed"
+      | none => .bad "decode-2"
+    | none => .bad "decode"
+  | "man_cast_intended" =>
+    match (MT.sub t).decode x 0 with
+    | some (s, o) =>
+      if o = x.size then ofExcept (subCastIntended t.man s) (fun c => .words ((MT.sub t).encode c))
+      else .bad "arity"
+    | none => .bad "decode"
+  | _ => .bad ("unknown-op " ++ op)
+
+def replyString [Bits α] (r : Reply α) : String :=
+  match r with
+  | .words w => " ".intercalate (w.toList.map Bits.toHex)
+  | .thrown e => throwMsg e
+  | .bad e => "ERR " ++ e
+
+def runManifAt (α : Type) [Scalar α] [Bits α] (op grp : String) (args : Array String) : String :=
+  match MT.parse grp with
+  | none => "ERR unknown-type " ++ grp
+  | some t =>
+    let x : Array α := args.map Bits.ofHex
+    if op == "man_subctor" || op == "man_cast_intended" then
+      match t with
+      | .sub t' => replyString (runSubOp t' op x)
+      | _ => "ERR not-a-submanifold"
+    else replyString (runManifOp t op x)
+
+def runManif (op grp prec : String) (args : Array String) : Option String :=
+  if !op.startsWith "man_" then none
+  else if prec == "f64" then some (runManifAt Float op grp args)
+  else if prec == "f32" then some (runManifAt Float32 op grp args)
+  else some "ERR bad-prec"
 
 end Drv
